@@ -483,6 +483,45 @@ theorem wal_frame_read (snappy : Bytes → Bytes) (unsnappy : Bytes → Option B
   · simp [h1, hrows h1]
   · simp [h1]
 
+/-- **a log file ending in a torn record**: complete records followed by a strict prefix of one
+more frame replay to exactly the complete records, in order — nothing is fabricated from the
+tail, whatever the pooled buffer held at the start. -/
+theorem wal_replay_torn_tail (snappy : Bytes → Bytes) (unsnappy : Bytes → Option Bytes)
+    (hs : ∀ b, unsnappy (snappy b) = some b) (rowsOK : Bytes → Bool)
+    (ty : Nat) (payload : Bytes) (hl : (snappy payload).length < 2 ^ 32)
+    (k : Nat) (hk : k < (walFrame snappy ty payload).length) :
+    ∀ (rs : List (Nat × Bytes)) (stale : Bytes) (fuel : Nat),
+      (∀ r ∈ rs, (0 < r.1 ∧ r.1 < 3) ∧ (r.1 = 1 → rowsOK r.2 = true) ∧ (snappy r.2).length < 2 ^ 32) →
+      rs.length < fuel →
+      walReplay walCfgNow unsnappy rowsOK fuel stale
+        ((rs.flatMap fun r => walFrame snappy r.1 r.2) ++ (walFrame snappy ty payload).take k) = rs
+  | [], stale, fuel, _, hf => by
+    obtain ⟨f, rfl⟩ : ∃ f, fuel = f + 1 := ⟨fuel - 1, by simp at hf; omega⟩
+    have h := wal_prefix_safe snappy unsnappy rowsOK stale ty payload hl k hk
+    simp only [List.flatMap_nil, List.nil_append, walReplay]
+    generalize walStep walCfgNow unsnappy rowsOK stale ((walFrame snappy ty payload).take k) = res at h
+    obtain ⟨a, b, c⟩ := res
+    simp only at h
+    subst h
+    rfl
+  | r :: rs, stale, fuel, hv, hf => by
+    obtain ⟨f, rfl⟩ : ∃ f, fuel = f + 1 := ⟨fuel - 1, by simp at hf; omega⟩
+    obtain ⟨hty, hrows, hlen⟩ := hv r (by simp)
+    have h := wal_frame_read snappy unsnappy hs rowsOK stale
+      ((rs.flatMap fun r => walFrame snappy r.1 r.2) ++ (walFrame snappy ty payload).take k)
+      r.1 r.2 hty hrows hlen
+    simp only [List.flatMap_cons, List.append_assoc, walReplay]
+    generalize walStep walCfgNow unsnappy rowsOK stale
+      (walFrame snappy r.1 r.2 ++ ((rs.flatMap fun r => walFrame snappy r.1 r.2)
+        ++ (walFrame snappy ty payload).take k)) = res at h
+    obtain ⟨a, b, c⟩ := res
+    simp only at h
+    obtain ⟨h1, h2⟩ := h
+    subst h1 h2
+    simp only
+    rw [wal_replay_torn_tail snappy unsnappy hs rowsOK ty payload hl k hk rs b f
+      (fun x hx => hv x (by simp [hx])) (by simp at hf; omega)]
+
 /-! ## strings -/
 
 /-- **string block**: for every non-empty list of strings (empty strings, 64 KiB strings, any
